@@ -257,6 +257,10 @@ func c12(c *core.Ctx) {
 	// the name that reaches the transport is the one the caller (or an interceptor handing the call on) gave:
 	// the client interceptor plumbing forwards its own parameters (C17/R2)
 	c.Borrow("C17", map[string]string{"R2": "R7"}, c17)
+	// "unknown services or methods fail with NotFound over HTTP": the mux's 404 reaches the caller as NotFound only if
+	// the client takes the reply's own status — header first, HTTP status as the fallback — before any verdict of its
+	// own (C14/R3)
+	c.Borrow("C14", map[string]string{"R3": "R9"}, c14)
 
 }
 
